@@ -10,6 +10,7 @@
    the JSON parser is not modelled, its correctness on the text at hand is the premise. *)
 From VT Require Import Codec.Packet Codec.SpecCodec Check.C01Check Check.C01CheckProofs.
 From VT Require Import Codec.MsgPack E2E.Pipe Check.C02Check E2E.E2EProofs.
+From VT Require Import Codec.JsonParse E2E.E2EConcrete.
 
 (* client.py and server.py / manager.py run the same packing, unpacking and reassembly code:
    every theorem below is proved once and holds for dir = C2S and dir = S2C *)
@@ -239,3 +240,36 @@ Theorem C02_server_model_handle_event : forall c eio p ns ev args id sid (s : S.
    end) s.
 Proof. exact server_model_handle_event. Qed.
 Print Assumptions C02_server_model_handle_event.
+
+(* ---- the JSON oracle discharged: json.loads := the concrete parser of Codec/JsonParse.v (tied to the
+   real json.loads by the C01 check).  lex_ok: no lone surrogates, floats as printed tokens. ---- *)
+Theorem C02_args_concrete : forall mloads mdumps dir event data ns id,
+  wf_payload data = true -> wf_nsname ns = true -> wf_id id = true ->
+  lex_ok (msg_payload (MEmit event data ns id)) = true ->
+  msg_small (MEmit event data ns id) ->
+  exists f,
+    let frames := PStr f :: map PBytes (leaves (PList (PStr event :: pack data))) in
+    sender_frames mdumps dir SerDefault event data ns id = Ok frames /\
+    receiver_calls json_loads mloads dir SerDefault frames = Ok [EvCall ns (PStr event) (pack data) id].
+Proof. exact args_concrete. Qed.
+Print Assumptions C02_args_concrete.
+
+Theorem C02_ack_concrete : forall mloads mdumps dir r ns id,
+  wf_payload r = true -> wf_nsname ns = true -> wf_id (Some id) = true ->
+  lex_ok (msg_payload (MAck r ns id)) = true ->
+  msg_small (MAck r ns id) ->
+  exists f,
+    let frames := PStr f :: map PBytes (leaves (PList (pack r))) in
+    ack_frames mdumps dir SerDefault r ns id = Ok frames /\
+    receiver_calls json_loads mloads dir SerDefault frames = Ok [AckCall ns (Some id) (pack r)] /\
+    callback_args json_loads mloads dir SerDefault frames = Ok (pack r).
+Proof. exact ack_concrete. Qed.
+Print Assumptions C02_ack_concrete.
+
+Theorem C02_order_concrete : forall mloads mdumps dir ms,
+  Forall (fun m => msg_wf m = true /\ lex_ok (msg_payload m) = true /\ msg_small m) ms ->
+  exists frs, all_frames mdumps dir SerDefault ms = Ok frs /\
+              rx_run json_loads mloads dir SerDefault None frs = Ok (None, map msg_call ms) /\
+              receiver_calls json_loads mloads dir SerDefault frs = Ok (map msg_call ms).
+Proof. exact order_concrete. Qed.
+Print Assumptions C02_order_concrete.
